@@ -761,6 +761,9 @@ def draw_config(ch, rng, nmodes, cfgname, domain_hint, allow_srs):
                 {"peak": "negs"}, {"peak": "poss"}, {"peak": "neg", "ic": "steady"}, {"peak": "negs", "eqsine": True}, {"peak": "rms"},
             ][ch.weighted([3, 3, 3, 3, 3, 2, 1, 1, 1, 1], "srsopts")]
             cs.nfrq = 2 + ch.draw(3, "nsrsfrq")
+            # categories have their own SRS frequency vectors: a prefix of the common palette,
+            # possibly shifted (same length as another category's, different values)
+            cs.frq_scale = [1.0, 1.3, 0.8][ch.weighted([3, 2, 1], "srsfrq_scale")]
         cats.append(cs)
     # DR_Event.add: the categories arrive in one or two DR_Def groups, each group
     # optionally with an event-level uf_reds override (replace / multiply / callable)
@@ -823,7 +826,7 @@ def _build_drdef(cla, cats, cfgname, srsfrq):
         if cs.srspv is not None:
             kw["srspv"] = cs.srspv
             kw["srsQs"] = cs.srsQs
-            kw["srsfrq"] = srsfrq[: cs.nfrq]
+            kw["srsfrq"] = srsfrq[: cs.nfrq] * getattr(cs, "frq_scale", 1.0)
             if cs.srsconv is not None:
                 kw["srsconv"] = cs.srsconv
             if cs.srsopts is not None:
@@ -939,7 +942,7 @@ def scenario_campaign(ch, tr, st):
             with _Sut("ode solver construction (psd event)"):
                 ev.fs = mkfs((ev.mod.m, ev.mod.b, ev.mod.k))
             ev.fs_ref = mkfs(copy.deepcopy((ev.mod.m, ev.mod.b, ev.mod.k)))
-        ev.srsfrq_for = lambda cs, _f=srsfrq: _f[: cs.nfrq]
+        ev.srsfrq_for = lambda cs, _f=srsfrq: _f[: cs.nfrq] * getattr(cs, "frq_scale", 1.0)
         ev.srs_all = srsfrq
         ev.R = {}  # casename -> {cat: response}
         ev.x = {}
